@@ -177,7 +177,8 @@ static JanetSlot do_propagate(JanetFopts opts, JanetSlot *args) {
     return opreduce(opts, args, JOP_PROPAGATE, 0, janet_wrap_nil(), janet_wrap_nil());
 }
 static JanetSlot do_error(JanetFopts opts, JanetSlot *args) {
-    janetc_emit_s(opts.compiler, JOP_ERROR, args[0], 0);
+    /* JOP_ERROR reads an 8 bit register operand, so the argument must be in a near register */
+    janetc_emit_si(opts.compiler, JOP_ERROR, args[0], 0, 0);
     return janetc_cslot(janet_wrap_nil());
 }
 static JanetSlot do_debug(JanetFopts opts, JanetSlot *args) {
